@@ -56,6 +56,30 @@ mod proofs {
 		}
 	}
 
+	// shim validation (startend unit): player_bytes::<N, M> = M consecutive N-byte records, Err iff fewer than N*M bytes.
+	// Bounded in (N, M) only by the instantiation (8 x 4, the UCF table); the slice content and length <= 40 are symbolic.
+	#[kani::proof]
+	#[kani::unwind(6)]
+	fn k_player_bytes_8_4() {
+		let data: [u8; 40] = kani::any();
+		let len: usize = kani::any();
+		kani::assume(len <= 40);
+		let mut r: &[u8] = &data[..len];
+		let res = h::player_bytes::<8, 4>(&mut r);
+		if len >= 32 {
+			assert!(res.is_ok());
+			let a = res.as_ref().ok().unwrap();
+			let i: usize = kani::any();
+			let j: usize = kani::any();
+			kani::assume(i < 4 && j < 8);
+			assert!(a[i][j] == data[i * 8 + j]);
+			assert!(r.len() == len - 32);
+		} else {
+			assert!(res.is_err());
+		}
+		std::mem::forget(res);
+	}
+
 	// C19: fix_char on ALL Unicode scalar values
 	#[kani::proof]
 	fn c19_fix_char() {
